@@ -89,7 +89,7 @@ CHECKS = {
         technique='Coq theorem for the clamp stage + Coq-verified bounds monitor on the base_q_idx of every coded frame of real encodes',
         text=('c18_qidx_in_bounds: for every value rate control or QP scaling may produce, the index written after the clamp lies between the indices of the configured min and max QP (table checked against the source on every run); '
               'c18_cqp_exact for fixed QP. check_c18_bounds (proved equivalent to the bound specification) runs on the base_q_idx of every coded frame - hidden frames included, parsed by the decoder - of VBR/CVBR encodes with tight and '
-              'equal bounds, QP scaling on and off, configured qp inside and outside the bounds, and fixed-QP encodes with exact-index expectation.'),
+              'equal bounds, QP scaling on and off, configured qp inside and outside the bounds, per-picture QPs supplied in the buffer header (0, 20, 35, 1, 63 with use_qp_file), and fixed-QP encodes with exact-index expectation. The forms the clamp model is written from are re-read from the source on every run: every write of base_q_idx in rate_control_kernel is a table lookup of the clipped picture_qp, the clipped fixed-offset index, or CLIP3 between the table entries of the QP bounds, and every assignment of picture_qp is the configured qp or a clip between min_qp_allowed and max_qp_allowed.'),
         note='Which branch of rate_control_kernel a frame takes is observed, not proved: the 7k lines of rate control are universally quantified inputs of the clamp model. Partial.'),
     'C19': dict(
         category='other', design_ref='DESIGN.md §6 C19',
